@@ -1641,7 +1641,7 @@ def liftF (name : Bytes) (args : List Expr) (x : JOut) : JOut := x.bind (F name 
 /-- the text of a print: the Go renderer's directive loop (Props/C04b `goPrint`: left to right, the
     escape flag cleared by a cancelling directive, escaping last) on the JSON image of the value,
     then ToString -/
-def refPrint (dirs : List Directive) (v : Val) : Out Bytes :=
+def refPrintJs (dirs : List Directive) (v : Val) : Out Bytes :=
   match toJsV v with
   | none => .unspec
   | some jv =>
@@ -1651,6 +1651,20 @@ def refPrint (dirs : List Directive) (v : Val) : Out Bytes :=
       | none => .unspec)
     | some .error => .error
     | _ => .unspec
+
+/-- Spec/Eval's print without directives: ToString of the value (an undefined value is an error), HTML-escaped
+    unless autoescaping is off -/
+def specPlain (v : Val) : Out Bytes :=
+  if Spec.Eval.isUndef v then .error
+  else (Spec.Eval.showVal v).bind fun s => .val (if ae != .off then htmlEscape s else s)
+
+/-- the text of a print in the reference semantics: through the JSON image and the library functions `F` where that
+    says something; where it is silent (a value without a JSON image, a list or a map, a function `F` leaves open) and
+    the print has NO directive, what Spec/Eval prints -/
+def refPrint (dirs : List Directive) (v : Val) : Out Bytes :=
+  match refPrintJs F ae dirs v with
+  | .unspec => if dirs.isEmpty then specPlain ae v else .unspec
+  | o => o
 
 /-- the data a call passes on before its params: the caller's entry data (`data="all"`), the map `data="$e"`
     evaluates to, or nothing -/
@@ -2883,7 +2897,7 @@ theorem print_ok (p : Nat) (arg : Expr) (dirs : List Directive) : CmdOk F G R ae
       rw [hjv] at hrv
       rw [hrv] at hgo
       refine ⟨s, env, ?_, ?_, bufIs_setBuf _ _ _, keeps_setBuf _ _ _ _⟩
-      · simp only [refCmd, hv, Spec.Eval.Out.bind, refPrint, hvj, hgo, hs']
+      · simp only [refCmd, hv, Spec.Eval.Out.bind, refPrint, refPrintJs, hvj, hgo, hs']
       · exact envRel_keep hrel (keeps_setBuf buf sc.n jenv _) hs.2 (Nat.le_refl _) hg.2 rfl
     · cases h
   · cases h
@@ -4544,7 +4558,12 @@ mutual
       plainBlock hb body && (match ifEmpty with
         | none => true
         | some b => plainBlock hb b)
-    | _ => true
+    | .rawText .. => true
+    | .letValue .. => true
+    | .css .. => true
+    | .debugger .. => true
+    -- `{log}` and the structural nodes are outside the fragment of the reference semantics
+    | _ => false
   def plainParts (hb : Bool) : MsgParts → Bool
     | .nil => true
     | .text _ _ rest => plainParts hb rest
@@ -4611,9 +4630,9 @@ variable (hcall : ∀ (name : Bytes) (t : Registry.Tmpl) (ce : Spec.Eval.CallEnv
   Registry.lookup reg name = some t → call t ce = .val out → call' t ce = .val out)
 include hesc
 
-theorem refPrint_nil (v : Val) (s : Bytes) (h : refPrint F ae [] v = .val s) :
+theorem refPrintJs_nil (v : Val) (s : Bytes) (h : refPrintJs F ae [] v = .val s) :
     ∃ s0, Spec.Eval.showVal v = .val s0 ∧ s = if ae != .off then htmlEscape s0 else s0 := by
-  unfold refPrint at h
+  unfold refPrintJs at h
   cases hv : toJsV v with
   | none => simp [hv] at h
   | some jv =>
@@ -4637,6 +4656,50 @@ theorem refPrint_nil (v : Val) (s : Bytes) (h : refPrint F ae [] v = .val s) :
       | some s0 =>
         simp only [hs, Out.val.injEq] at h
         exact ⟨s0, C04c.showVal_toStr v jv s0 hv hs, h.symm⟩
+
+theorem refPrintJs_nil_ne_error (v : Val) : refPrintJs F ae [] v ≠ .error := by
+  intro h
+  unfold refPrintJs at h
+  cases hv : toJsV v with
+  | none => simp [hv] at h
+  | some jv =>
+    simp only [hv] at h
+    have hgo : C04b.goPrint (liftF F) Gen.directiveTable ae [] (.val jv) =
+        some (if ae != .off then F escapeHtmlName [] jv else .val jv) := by
+      simp only [C04b.goPrint, C04b.goRun, Option.map_some, liftF, JOut.bind]
+    rw [hgo] at h
+    by_cases hae : (ae != .off) = true
+    · simp only [hae, if_true] at h
+      rw [hesc jv] at h
+      cases hs : toStr? jv with
+      | none => simp [hs] at h
+      | some s0 =>
+        rw [hs] at h
+        simp only [toStr?] at h
+        cases h
+    · simp only [hae, Bool.false_eq_true, if_false] at h
+      cases hs : toStr? jv <;> simp [hs] at h
+
+/-- without directives the reference's print IS Spec/Eval's -/
+theorem refPrint_nil_eq (v : Val) : refPrint F ae [] v = specPlain ae v := by
+  unfold refPrint
+  cases h : refPrintJs F ae [] v with
+  | unspec => simp
+  | error => exact absurd h (refPrintJs_nil_ne_error F ae hesc v)
+  | val s =>
+    obtain ⟨s0, hs0, rfl⟩ := refPrintJs_nil F ae hesc v s h
+    have hu : Spec.Eval.isUndef v = false := by cases v <;> simp_all [Spec.Eval.isUndef, Spec.Eval.showVal]
+    simp [specPlain, hu, hs0, Spec.Eval.Out.bind]
+
+theorem refPrint_nil (v : Val) (s : Bytes) (h : refPrint F ae [] v = .val s) :
+    ∃ s0, Spec.Eval.showVal v = .val s0 ∧ s = if ae != .off then htmlEscape s0 else s0 := by
+  rw [refPrint_nil_eq F ae hesc v] at h
+  unfold specPlain at h
+  split at h
+  · cases h
+  · obtain ⟨s0, hs0, h⟩ := out_bind_val h
+    simp only [Out.val.injEq] at h
+    exact ⟨s0, hs0, h.symm⟩
 
 include hcall
 
@@ -5011,6 +5074,383 @@ mutual
       simp only [plainConds, Bool.and_eq_true] at hp
       simp only [refConds] at h ⊢
       exact ref_le_spec_block body env out hp.1 h
+end
+
+end
+
+/-! ### … and conversely: what Spec/Eval renders, the reference renders
+
+  On the directive-free fragment (`plainCmd`), with soy.$$escapeHtml read as `htmlEscape ∘ ToString`, the reference
+  semantics renders every text Spec/Eval renders (its print falls back to Spec/Eval's where the JSON image is silent:
+  `refPrint_nil_eq`).  With `ref_le_spec_*`: on this fragment the two agree on the texts. -/
+
+section
+variable (F : Bytes → List Expr → JVal → JOut) (ae : Autoescape) (hesc : EscapeHtmlIs F)
+variable (reg : Registry.Reg) (hasBundle : Bool) (entry : Spec.Eval.Binds)
+variable (call call' : Registry.Tmpl → Spec.Eval.CallEnv → Out Bytes)
+variable (hcall : ∀ (name : Bytes) (t : Registry.Tmpl) (ce : Spec.Eval.CallEnv) (out : Bytes),
+  Registry.lookup reg name = some t → call' t ce = .val out → call t ce = .val out)
+include hesc hcall
+
+mutual
+  theorem spec_le_ref_cmd : ∀ (c : Cmd) (env : SEnv) (r : Bytes × SEnv), plainCmd hasBundle c = true →
+      Spec.Eval.renderCmd reg hasBundle (ae != .off) entry call' none c env = .val r → refCmd F ⟨reg, entry, call⟩ ae c env = .val r
+    | .rawText p t, env, r, _, h => by
+      rw [Spec.Eval.renderCmd] at h
+      simpa [refCmd] using h
+    | .print p arg dirs, env, r, hp, h => by
+      have hd : dirs = [] := by simpa [plainCmd] using hp
+      subst hd
+      rw [Spec.Eval.renderCmd] at h
+      simp only [List.isEmpty_nil, Bool.not_true, Bool.false_and, Bool.false_eq_true, if_false] at h
+      obtain ⟨v, hv, h⟩ := out_bind_val h
+      simp only [refCmd, refPrint_nil_eq F ae hesc, hv, Spec.Eval.Out.bind, specPlain]
+      cases hu : Spec.Eval.isUndef v
+      · simp only [hu, Bool.false_eq_true, if_false, Spec.Eval.runDirs, Spec.Eval.Out.bind] at h ⊢
+        cases hs : Spec.Eval.showVal v with
+        | val s0 => simp only [hs] at h ⊢; exact h
+        | error => simp [hs] at h
+        | unspec => simp [hs] at h
+      · simp [hu] at h
+    | .letValue p x e, env, r, _, h => by
+      rw [Spec.Eval.renderCmd] at h
+      simpa [refCmd] using h
+    | .ifc p conds, env, r, hp, h => by
+      rw [Spec.Eval.renderCmd] at h
+      simp only [refCmd]
+      obtain ⟨out, ho, h⟩ := out_bind_val h
+      rw [spec_le_ref_conds conds env out (by simpa [plainCmd] using hp) ho]
+      exact h
+    | .msg p id m d bp body, env, r, hp, h => by
+      simp only [plainCmd, Bool.and_eq_true, Bool.not_eq_true'] at hp
+      rw [Spec.Eval.renderCmd] at h
+      rw [if_pos (by simp [hp.1])] at h
+      simp only [refCmd]
+      obtain ⟨r1, h1, h⟩ := out_bind_val h
+      rw [spec_le_ref_parts body env r1 hp.2 h1]
+      exact h
+    | .css p none suffix, env, r, _, h => by
+      rw [Spec.Eval.renderCmd] at h
+      simpa [refCmd] using h
+    | .css p (some e) suffix, env, r, _, h => by
+      rw [Spec.Eval.renderCmd] at h
+      simpa [refCmd] using h
+    | .debugger p, env, r, _, h => by
+      rw [Spec.Eval.renderCmd] at h
+      simpa [refCmd] using h
+    | .log .., _, _, hp, _ => by simp [plainCmd] at hp
+    | .forc p v list body none, env, r, hp, h => by
+      rw [Spec.Eval.renderCmd] at h
+      simp only [plainCmd, Bool.and_eq_true] at hp
+      simp only [refCmd]
+      obtain ⟨lv, hev, h⟩ := out_bind_val h
+      rw [hev]
+      simp only [Spec.Eval.Out.bind]
+      cases lv with
+      | list xs =>
+        simp only at h ⊢
+        by_cases hem : xs.isEmpty = true
+        · simp only [hem, if_true] at h ⊢
+          exact h
+        · simp only [hem, Bool.false_eq_true, if_false] at h ⊢
+          obtain ⟨out, ho, h⟩ := out_bind_val h
+          rw [loopSpec_le _ _ (fun env' o ho' => spec_le_ref_block body env' o hp.1 ho') env v _ xs 0 out ho]
+          exact h
+      | _ => cases h
+    | .forc p v list body (some b), env, r, hp, h => by
+      rw [Spec.Eval.renderCmd] at h
+      simp only [plainCmd, Bool.and_eq_true] at hp
+      simp only [refCmd]
+      obtain ⟨lv, hev, h⟩ := out_bind_val h
+      rw [hev]
+      simp only [Spec.Eval.Out.bind]
+      cases lv with
+      | list xs =>
+        simp only at h ⊢
+        by_cases hem : xs.isEmpty = true
+        · simp only [hem, if_true] at h ⊢
+          obtain ⟨out, ho, h⟩ := out_bind_val h
+          rw [spec_le_ref_block b env out hp.2 ho]
+          exact h
+        · simp only [hem, Bool.false_eq_true, if_false] at h ⊢
+          obtain ⟨out, ho, h⟩ := out_bind_val h
+          rw [loopSpec_le _ _ (fun env' o ho' => spec_le_ref_block body env' o hp.1 ho') env v _ xs 0 out ho]
+          exact h
+      | _ => cases h
+    | .switch p value cases, env, r, hp, h => by
+      rw [Spec.Eval.renderCmd] at h
+      simp only [refCmd]
+      obtain ⟨sv, hsv, h⟩ := out_bind_val h
+      obtain ⟨out, ho, h⟩ := out_bind_val h
+      have hc : Spec.Eval.renderCases reg hasBundle (ae != .off) entry call' none cases sv env = .val out := by
+        rw [Spec.Eval.renderCases]; exact ho
+      rw [hsv]
+      simp only [Spec.Eval.Out.bind]
+      rw [spec_le_ref_cases cases sv env out (by simpa [plainCmd] using hp) hc]
+      exact h
+    | .call p name true none params, env, r, hp, h => by
+      rw [Spec.Eval.renderCmd] at h
+      simp only [refCmd, refBase]
+      cases hl : Registry.lookup reg name with
+      | none => simp [hl] at h
+      | some callee =>
+        simp only [hl, ↓reduceIte, Bool.false_eq_true] at h ⊢
+        obtain ⟨b, hb, h⟩ := out_bind_val h
+        obtain ⟨ps, hps, h⟩ := out_bind_val h
+        rw [hb]
+        simp only [Spec.Eval.Out.bind]
+        rw [spec_le_ref_params params env ps (by simpa [plainCmd] using hp) hps]
+        obtain ⟨o, ho, h⟩ := out_bind_val h
+        dsimp only
+        rw [hcall name callee _ o hl ho]
+        exact h
+    | .call p name true (some d) params, env, r, hp, h => by
+      rw [Spec.Eval.renderCmd] at h
+      simp only [refCmd, refBase]
+      cases hl : Registry.lookup reg name with
+      | none => simp [hl] at h
+      | some callee =>
+        simp only [hl, ↓reduceIte, Bool.false_eq_true] at h ⊢
+        obtain ⟨b, hb, h⟩ := out_bind_val h
+        obtain ⟨ps, hps, h⟩ := out_bind_val h
+        rw [hb]
+        simp only [Spec.Eval.Out.bind]
+        rw [spec_le_ref_params params env ps (by simpa [plainCmd] using hp) hps]
+        obtain ⟨o, ho, h⟩ := out_bind_val h
+        dsimp only
+        rw [hcall name callee _ o hl ho]
+        exact h
+    | .call p name false none params, env, r, hp, h => by
+      rw [Spec.Eval.renderCmd] at h
+      simp only [refCmd, refBase]
+      cases hl : Registry.lookup reg name with
+      | none => simp [hl] at h
+      | some callee =>
+        simp only [hl, ↓reduceIte, Bool.false_eq_true] at h ⊢
+        obtain ⟨b, hb, h⟩ := out_bind_val h
+        obtain ⟨ps, hps, h⟩ := out_bind_val h
+        rw [hb]
+        simp only [Spec.Eval.Out.bind]
+        rw [spec_le_ref_params params env ps (by simpa [plainCmd] using hp) hps]
+        obtain ⟨o, ho, h⟩ := out_bind_val h
+        dsimp only
+        rw [hcall name callee _ o hl ho]
+        exact h
+    | .call p name false (some d) params, env, r, hp, h => by
+      rw [Spec.Eval.renderCmd] at h
+      simp only [refCmd, refBase]
+      cases hl : Registry.lookup reg name with
+      | none => simp [hl] at h
+      | some callee =>
+        simp only [hl, ↓reduceIte, Bool.false_eq_true] at h ⊢
+        obtain ⟨b, hb, h⟩ := out_bind_val h
+        obtain ⟨ps, hps, h⟩ := out_bind_val h
+        obtain ⟨v, hv, hb⟩ := out_bind_val hb
+        rw [hv]
+        simp only [Spec.Eval.Out.bind]
+        cases v <;> simp only [Out.val.injEq, reduceCtorEq] at hb
+        subst hb
+        simp only [Spec.Eval.Out.bind]
+        rw [spec_le_ref_params params env ps (by simpa [plainCmd] using hp) hps]
+        obtain ⟨o, ho, h⟩ := out_bind_val h
+        dsimp only
+        rw [hcall name callee _ o hl ho]
+        exact h
+    | .letContent p name body, env, r, hp, h => by
+      rw [Spec.Eval.renderCmd] at h
+      simp only [refCmd]
+      obtain ⟨out, ho, h⟩ := out_bind_val h
+      rw [spec_le_ref_block body env out (by simpa [plainCmd] using hp) ho]
+      exact h
+    | .headerParam .., _, _, hp, _ => by simp [plainCmd] at hp
+    | .namespace .., _, _, hp, _ => by simp [plainCmd] at hp
+    | .template .., _, _, hp, _ => by simp [plainCmd] at hp
+    | .soyDoc .., _, _, hp, _ => by simp [plainCmd] at hp
+  theorem spec_le_ref_parts : ∀ (ps : MsgParts) (env : SEnv) (r : Bytes × SEnv), plainParts hasBundle ps = true →
+      Spec.Eval.renderParts reg hasBundle (ae != .off) entry call' none ps env = .val r →
+      refParts F ⟨reg, entry, call⟩ ae ps env = .val r
+    | .nil, env, r, _, h => by
+      rw [Spec.Eval.renderParts] at h
+      simpa [refParts] using h
+    | .text p t rest, env, r, hp, h => by
+      rw [Spec.Eval.renderParts] at h
+      simp only [refParts]
+      obtain ⟨r1, h1, h⟩ := out_bind_val h
+      rw [spec_le_ref_parts rest env r1 (by simpa [plainParts] using hp) h1]
+      exact h
+    | .ph p name body rest, env, r, hp, h => by
+      simp only [plainParts, Bool.and_eq_true] at hp
+      rw [Spec.Eval.renderParts] at h
+      simp only [refParts]
+      obtain ⟨r1, h1, h⟩ := out_bind_val h
+      obtain ⟨r2, h2, h⟩ := out_bind_val h
+      rw [spec_le_ref_ph body env r1 hp.1 h1]
+      simp only [Spec.Eval.Out.bind]
+      rw [spec_le_ref_parts rest r1.2 r2 hp.2 h2]
+      exact h
+    | .plural p vn value cases dp dflt rest, env, r, hp, h => by
+      simp only [plainParts, Bool.and_eq_true] at hp
+      rw [Spec.Eval.renderParts] at h
+      simp only [refParts]
+      obtain ⟨v, hv, h⟩ := out_bind_val h
+      rw [hv]
+      simp only [Spec.Eval.Out.bind]
+      cases v <;> simp only [reduceCtorEq] at h
+      rename_i i
+      obtain ⟨r1, h1, h⟩ := out_bind_val h
+      obtain ⟨r2, h2, h⟩ := out_bind_val h
+      have hsp : (match refPlural F ⟨reg, entry, call⟩ ae cases i env with
+          | some r => r
+          | none => refParts F ⟨reg, entry, call⟩ ae dflt env) = .val r1 := by
+        rcases spec_le_ref_plural cases i env _ r1 hp.1.1 h1 with hq | ⟨hq, hd⟩
+        · rw [hq]
+        · rw [hq]
+          exact spec_le_ref_parts dflt env r1 hp.1.2 hd
+      dsimp only
+      rw [hsp]
+      dsimp only
+      rw [spec_le_ref_parts rest r1.2 r2 hp.2 h2]
+      exact h
+  theorem spec_le_ref_plural : ∀ (cs : PluralCases) (i : Int) (env : SEnv) (dfltF : SEnv → Spec.Eval.ROut) (r : Bytes × SEnv),
+      plainPCases hasBundle cs = true →
+      Spec.Eval.renderPlural reg hasBundle (ae != .off) entry call' none cs dfltF i env = .val r →
+      refPlural F ⟨reg, entry, call⟩ ae cs i env = some (.val r) ∨
+        (refPlural F ⟨reg, entry, call⟩ ae cs i env = none ∧ dfltF env = .val r)
+    | .nil, i, env, dfltF, r, _, h => by
+      rw [Spec.Eval.renderPlural] at h
+      exact Or.inr ⟨by simp [refPlural], h⟩
+    | .cons p v bp body rest, i, env, dfltF, r, hp, h => by
+      simp only [plainPCases, Bool.and_eq_true] at hp
+      rw [Spec.Eval.renderPlural] at h
+      simp only [refPlural]
+      by_cases hiv : (i == v) = true
+      · simp only [hiv, if_true] at h ⊢
+        exact Or.inl (by rw [spec_le_ref_parts body env r hp.1 h])
+      · simp only [hiv, Bool.false_eq_true, if_false] at h ⊢
+        exact spec_le_ref_plural rest i env dfltF r hp.2 h
+  theorem spec_le_ref_ph : ∀ (b : MsgPhBody) (env : SEnv) (r : Bytes × SEnv), plainPh hasBundle b = true →
+      Spec.Eval.renderPh reg hasBundle (ae != .off) entry call' none b env = .val r →
+      refPh F ⟨reg, entry, call⟩ ae b env = .val r
+    | .htmlTag p t, env, r, _, h => by
+      rw [Spec.Eval.renderPh] at h
+      simpa [refPh] using h
+    | .cmd c, env, r, hp, h => by
+      rw [Spec.Eval.renderPh] at h
+      simp only [refPh]
+      exact spec_le_ref_cmd c env r (by simpa [plainPh] using hp) h
+  theorem spec_le_ref_params : ∀ (ps : ParamList) (env : SEnv) (out : Spec.Eval.Binds), plainParams hasBundle ps = true →
+      Spec.Eval.renderParams reg hasBundle (ae != .off) entry call' none ps env = .val out →
+      refParams F ⟨reg, entry, call⟩ ae ps env = .val out
+    | .nil, env, out, _, h => by
+      rw [Spec.Eval.renderParams] at h
+      simpa [refParams] using h
+    | .value p key e rest, env, out, hp, h => by
+      rw [Spec.Eval.renderParams] at h
+      simp only [refParams]
+      obtain ⟨v, hv, h⟩ := out_bind_val h
+      obtain ⟨r, hr, h⟩ := out_bind_val h
+      rw [hv]
+      simp only [Spec.Eval.Out.bind]
+      rw [spec_le_ref_params rest env r (by simpa [plainParams] using hp) hr]
+      exact h
+    | .content p key body rest, env, out, hp, h => by
+      rw [Spec.Eval.renderParams] at h
+      simp only [plainParams, Bool.and_eq_true] at hp
+      simp only [refParams]
+      obtain ⟨o1, ho1, h⟩ := out_bind_val h
+      obtain ⟨r, hr, h⟩ := out_bind_val h
+      rw [spec_le_ref_block body env o1 hp.1 ho1]
+      simp only [Spec.Eval.Out.bind]
+      rw [spec_le_ref_params rest env r hp.2 hr]
+      exact h
+  theorem spec_le_ref_block : ∀ (b : Block) (env : SEnv) (out : Bytes), plainBlock hasBundle b = true →
+      Spec.Eval.renderBlock reg hasBundle (ae != .off) entry call' none b env = .val out → refBlock F ⟨reg, entry, call⟩ ae b env = .val out
+    | .mk p cmds, env, out, hp, h => by
+      rw [Spec.Eval.renderBlock] at h
+      simp only [refBlock]
+      exact spec_le_ref_cmds cmds env out (by simpa [plainBlock] using hp) h
+  theorem spec_le_ref_cmds : ∀ (cs : CmdList) (env : SEnv) (out : Bytes), plainCmds hasBundle cs = true →
+      Spec.Eval.renderCmds reg hasBundle (ae != .off) entry call' none cs env = .val out → refCmds F ⟨reg, entry, call⟩ ae cs env = .val out
+    | .nil, env, out, _, h => by
+      rw [Spec.Eval.renderCmds] at h
+      simpa [refCmds] using h
+    | .cons c rest, env, out, hp, h => by
+      rw [Spec.Eval.renderCmds] at h
+      simp only [plainCmds, Bool.and_eq_true] at hp
+      simp only [refCmds]
+      obtain ⟨r1, h1, h⟩ := out_bind_val h
+      obtain ⟨more, h2, h⟩ := out_bind_val h
+      rw [spec_le_ref_cmd c env r1 hp.1 h1]
+      simp only [Spec.Eval.Out.bind]
+      rw [spec_le_ref_cmds rest r1.2 more hp.2 h2]
+      exact h
+  theorem spec_le_ref_cases : ∀ (cs : CaseList) (sv : Val) (env : SEnv) (out : Bytes), plainCases hasBundle cs = true →
+      Spec.Eval.renderCases reg hasBundle (ae != .off) entry call' none cs sv env = .val out → refCases F ⟨reg, entry, call⟩ ae cs sv env = .val out
+    | .nil, sv, env, out, _, h => by
+      rw [Spec.Eval.renderCases, Spec.Eval.renderMatch, Spec.Eval.renderDefault] at h
+      simpa [refCases, Spec.Eval.Out.bind, Spec.Eval.orDefault] using h
+    | .cons p values body rest, sv, env, out, hp, h => by
+      simp only [plainCases, Bool.and_eq_true, Bool.or_eq_true, Bool.not_eq_true'] at hp
+      obtain ⟨⟨hpb, hpr⟩, hlast⟩ := hp
+      simp only [refCases]
+      by_cases hem : values.isEmpty = true
+      · simp only [hem, if_true]
+        have hv : values = [] := by simpa using hem
+        subst hv
+        have hr : rest = .nil := by
+          rcases hlast with h0 | h0
+          · simp at h0
+          · cases rest with
+            | nil => rfl
+            | cons _ _ _ _ => simp at h0
+        subst hr
+        rw [Spec.Eval.renderCases, Spec.Eval.renderMatch, Spec.Eval.renderDefault] at h
+        simp only [Spec.Eval.matchAny, Spec.Eval.Out.bind, Bool.false_eq_true, if_false, Spec.Eval.renderMatch,
+          Spec.Eval.orDefault, List.isEmpty_nil, if_true] at h
+        exact spec_le_ref_block body env out hpb h
+      · simp only [hem, Bool.false_eq_true, if_false]
+        rw [Spec.Eval.renderCases, Spec.Eval.renderMatch, Spec.Eval.renderDefault] at h
+        simp only [hem, Bool.false_eq_true, if_false] at h
+        obtain ⟨o1, ho1, h⟩ := out_bind_val h
+        obtain ⟨hit, hh, ho1⟩ := out_bind_val ho1
+        rw [hh]
+        simp only [Spec.Eval.Out.bind]
+        cases hit with
+        | true =>
+          simp only [if_true] at ho1 ⊢
+          obtain ⟨ob, hob, ho1⟩ := out_bind_val ho1
+          simp only [Out.val.injEq] at ho1
+          subst ho1
+          simp only [Spec.Eval.orDefault, Out.val.injEq] at h
+          subst h
+          exact spec_le_ref_block body env ob hpb hob
+        | false =>
+          simp only [Bool.false_eq_true, if_false] at ho1 ⊢
+          apply spec_le_ref_cases rest sv env out hpr
+          rw [Spec.Eval.renderCases, ho1]
+          exact h
+  theorem spec_le_ref_conds : ∀ (cs : CondList) (env : SEnv) (out : Bytes), plainConds hasBundle cs = true →
+      Spec.Eval.renderConds reg hasBundle (ae != .off) entry call' none cs env = .val out → refConds F ⟨reg, entry, call⟩ ae cs env = .val out
+    | .nil, env, out, _, h => by
+      rw [Spec.Eval.renderConds] at h
+      simpa [refConds] using h
+    | .cons p (some c) body rest, env, out, hp, h => by
+      rw [Spec.Eval.renderConds] at h
+      simp only [plainConds, Bool.and_eq_true] at hp
+      simp only [refConds] at h ⊢
+      obtain ⟨v, hv, h⟩ := out_bind_val h
+      rw [hv]
+      simp only [Spec.Eval.Out.bind]
+      by_cases ht : Spec.Eval.truthy v = true
+      · simp only [ht, if_true] at h ⊢
+        exact spec_le_ref_block body env out hp.1 h
+      · simp only [ht, Bool.false_eq_true, if_false] at h ⊢
+        exact spec_le_ref_conds rest env out hp.2 h
+    | .cons p none body rest, env, out, hp, h => by
+      rw [Spec.Eval.renderConds] at h
+      simp only [plainConds, Bool.and_eq_true] at hp
+      simp only [refConds] at h ⊢
+      exact spec_le_ref_block body env out hp.1 h
 end
 
 end
@@ -5483,9 +5923,11 @@ end ExamplesGlobals
       their `var`s — every visible Soy variable is still held by its own local (`envRel_keep`); the
       loop (`loop_ok`): iteration `i` of `for (var i = 0; i < n; i++)` is iteration `i` of Spec/Eval's
       `loopSpec`, the body run with the item bound, the list / limit / index locals untouched by it;
-    * `ref_le_spec_cmds` / `gen_correct_cmds_spec` — without print directives and with
+    * `ref_le_spec_cmds` / `spec_le_ref_cmds` / `gen_correct_cmds_spec` — without print directives and with
       soy.$$escapeHtml read as `htmlEscape ∘ ToString` (`EscapeHtmlIs`, a LIBRARY obligation),
-      `refCmds` is Spec/Eval.renderCmds, the specification C02Spec proves the Go interpreter against.
+      `refCmds` renders exactly the texts Spec/Eval.renderCmds renders (both directions; the reference's print without
+      directives falls back to Spec/Eval's where the JSON image says nothing: `refPrint`), the specification C02Spec proves
+      the Go interpreter against.
   DIRECTION: "if the JavaScript completes, the specification yields that text".  The converse is
   Props/C04e (`gen_complete_cmds_partial`): where `refCmds` renders a text the JavaScript completes with
   it or leaves the common subset (`unspec`: a print of a list or a map is text in Soy and outside the
@@ -5515,8 +5957,7 @@ end ExamplesGlobals
   runs the entry function through that table and compares with otto.
 
   OUTSIDE (no theorem at the command level): `range` with a computed step, `{call}` to a `{deltemplate}` (`{delcall}`),
-  the converse against Spec/Eval.render where the JavaScript THROWS (Props/C04f `gen_complete_registry_spec_partial`, hypothesis
-  `hthrow`), `{msg}` with a message bundle (translated parts), `{log}` (its scratch buffer `output_` is a plain name:
+  `{msg}` with a message bundle (translated parts), `{log}` (its scratch buffer `output_` is a plain name:
   the `Keeps` / `Old` discipline — only the output variable and names generated LATER change — has no room for it), `$ij` in a function called without injected data, globals that are floats / lists / maps, print directives with
   non-literal arguments, and
   the file level above the functions (namespace declarations, goog.provide / ES6 imports — covered for SHAPE by C14, not for
